@@ -880,7 +880,7 @@ def _gen_fsm(rng, name):
         _add_chains(rng, tables)
     if rng.random() < 0.12:
         trig = rng.choice(['enter', 'exit'])
-        cands = [st for st in states if trig == 'exit' or st != init]
+        cands = [st for st in states if trig == 'exit' or st not in (init, _init_final(tables))]
         if cands:
             tables['bogus'] = [[trig, rng.choice(cands)]]
     return {'kind': 'fsm', 'name': name, 'tables': tables}
@@ -912,6 +912,35 @@ def _chain_cyclic(tables):
     return False
 
 
+def _init_final(tables):
+    """the state the initial transition (conditions are skipped there) ends in, following the chained transitions
+    of the entry actions; None: it runs into a failing entry action"""
+    scripts = {e[0]: e for e in tables['enters']}
+    cur = tables['init']
+    for _ in range(len(tables['states']) + 1):
+        sc = scripts.get(cur)
+        if sc is None:
+            return cur
+        if sc[1] == 'raise':
+            return None
+        if sc[1] == 'chain':
+            nxt = _next_state(tables, sc[2], cur)
+            if nxt is None:
+                return cur
+            cur = nxt
+        elif sc[1] == 'goto':
+            if sc[2] not in tables['states']:
+                return None
+            cur = sc[2]
+        else:
+            return cur
+    return None
+
+
+def _init_chain_fails(tables):
+    return _init_final(tables) is None
+
+
 def _add_chains(rng, tables):
     """entry actions that request a chained transition: `self.event(EVENT)` / `self.event(Goto(STATE))`"""
     states = tables['states']
@@ -926,7 +955,7 @@ def _add_chains(rng, tables):
             others = [x for x in states if x != st]
             script = [st, 'goto', rng.choice(others) if rng.random() < 0.93 else 'zz']
         tables['enters'] = [e for e in tables['enters'] if e[0] != st] + [script]
-        if _chain_cyclic(tables):
+        if _chain_cyclic(tables) or _init_chain_fails(tables):
             tables['enters'] = saved
 
 
@@ -1646,6 +1675,7 @@ def oracle(scn, res):
     # ---- storage follows the state
     saves = {}                # block index -> [(snapshot index, observation)] at its legitimate saves
     frozen = {}               # block index -> entry at the time of its handler error
+    frozen_nu = {}            # the same for a handler that failed with a nested EdzedUnknownEvent (no abort)
     if first[0]['label'] == 'init':
         for i, spec in enumerate(specs):
             o = first[0]['obs'][i]
@@ -1672,6 +1702,24 @@ def oracle(scn, res):
                     viol('event_unaffected_by_storage_fault',
                          f"{s['label']} #{n} ({s.get('op')}) on a storage whose writes fail ({flt}): event() raised the "
                          f"storage's exception instead of returning the handler's result", faults=sorted(flt))
+            # ---- crash points INSIDE the event: the storage after every write made while the event was handled
+            if spec['p'] and spec['s'] and s.get('writes') is not None:
+                before = _entry_view(spec, first[n - 1]['store'].get(keys[i], KeyError))
+                done = _expected_entry(spec, s['obs'][i]) if s['res'].startswith('ret') else None
+                for wn, w in enumerate(s['writes']):
+                    got = _entry_view(spec, w.get(keys[i], KeyError))
+                    if _same(got, before) or (done is not None and _same(got, done)):
+                        continue
+                    viol('storage_never_holds_intermediate_state',
+                         f"{s['label']} #{n} ({s.get('op')}, {s['res']}): write {wn + 1} of {len(s['writes'])} made during the "
+                         f"event left {keys[i]} = {got!r} in the storage; the state after the last completed event is "
+                         f"{before!r}" + (f", after this one {done!r}" if done is not None else " (this event failed)"),
+                         at=s['label'], failed=done is None)
+                    break
+            if s.get('nested_unknown') and i not in frozen and i not in frozen_nu:
+                # the handler failed with an exception raised by a nested event (an on_enter / on_exit event of a type
+                # its destination does not know): "nothing is written once an event handler of the block has failed"
+                frozen_nu[i] = (first[n - 1]['store'].get(keys[i], KeyError), n)
             if s['res'] == 'err Abort' and i not in frozen:
                 frozen[i] = first[n - 1]['store'].get(keys[i], KeyError)
             elif (s['res'].startswith('ret') and flt.get('w') and spec['p'] and spec['s'] and i not in frozen
@@ -1759,6 +1807,13 @@ def oracle(scn, res):
                         got = _entry_view(spec, s['store'].get(keys[i], KeyError))
                         if not _same(want, got):
                             viol('stop_saves_all_with_timestamp', f'after stop: {keys[i]} holds {got!r}, block state {want!r}')
+        for i, (e, at) in frozen_nu.items():
+            if i not in frozen and n > at and not _same(s['store'].get(keys[i], KeyError), e):
+                viol('frozen_after_handler_error',
+                     f"snapshot {n} ({s['label']}): entry of {keys[i]} was written after its handler had failed with an "
+                     f"EdzedUnknownEvent of a nested event (event #{at}): {s['store'].get(keys[i])!r}, was {e!r}",
+                     cause='nested-unknown-event')
+                break
         for i, e in frozen.items():
             if not _same(s['store'].get(keys[i], KeyError), e):
                 viol('frozen_after_handler_error',
